@@ -220,6 +220,9 @@ func (x *Exec) externCall(f *frame, in ssa.Instruction, callee *ssa.Function, c 
 	if o := callee.Origin(); o != nil {
 		name = o.String()
 	}
+	if v, ok := x.atomicTyped(f, in, name, c, args); ok {
+		return v, true
+	}
 	if h, ok := pureExterns[name]; ok && h != nil {
 		v, ok := h(x, f, 0, args, in.(ssa.Value))
 		if ok {
@@ -337,6 +340,9 @@ func isEffectFree(name string) bool {
 		"google.golang.org/grpc/balancer/base.NewErrPicker",
 		"math.", // package math: pure functions (result unconstrained unless modelled elsewhere)
 		"google.golang.org/grpc/internal/grpclog.",
+		// timers: Stop/Reset report whether the timer was active (result unconstrained); AfterFunc/NewTimer
+		// register a callback or channel; none of them touches modelled state synchronously
+		"(*time.Timer).Stop", "(*time.Timer).Reset", "time.AfterFunc", "time.NewTimer",
 	} {
 		if strings.HasPrefix(name, p) {
 			return true
